@@ -118,7 +118,9 @@ impl Probe for ResolveProbe {
                                 cx.violation("C07", "C07:resolving-to-a-deletion-did-not-delete", sc, &h, json!({"uuid": uuid, "leaf": leaf, "winner_after": wnow, "read_after": read_after}));
                                 continue;
                             }
-                        } else if sb != sa {
+                        } else if sb != sa && !is_del(&winner) {
+                            // (when the winner was the deletion of the array, choosing a live version legitimately
+                            // brings the array and its live elements back)
                             cx.violation("C07", "C07:array-resolution-changed-membership", sc, &h, json!({"uuid": uuid, "leaf": leaf, "before": before, "after": after}));
                             continue;
                         }
@@ -202,6 +204,34 @@ impl Probe for ResolveProbe {
                                 let mut h = hist.to_vec();
                                 h.extend_from_slice(&ops);
                                 cx.violation("C07", "C07:independent-resolutions-diverge", sc, &h, json!({"uuid": uuid, "differs": diff_keys(&vr, &vs), "view_r": vr, "view_s": vs}));
+                                continue;
+                            }
+                            // the exchanged resolutions leave a usable replica: the conflict is gone or still has a
+                            // winner, every object can be queried, and a document can be submitted and read back
+                            w.focus();
+                            let mut h = hist.to_vec();
+                            h.extend_from_slice(&ops);
+                            h.extend_from_slice(&[Op::Sync(r, s), Op::Sync(s, r)]);
+                            for uu in w.reps[r].m.get_all_objects() {
+                                if w.reps[r].m.get_winner(&uu).is_err() {
+                                    cx.violation("C07", "C07:object-without-winner-after-exchanged-resolutions", sc, &h, json!({"uuid": uu, "tree": w.reps[r].m.verif_dump_tree(&uu)}));
+                                    break;
+                                }
+                            }
+                            for d in 0..sc.menu.docs.len().min(2) {
+                                let mut w2 = sc.build(&h);
+                                let o = w2.apply(&Op::Upd(r, d));
+                                cx.count("updates_after_exchanged_resolutions");
+                                let want = crate::props::c04::expect_tracked(&sc.menu.doc(d), &[]);
+                                w2.focus();
+                                let rd = read_doc(&w2.reps[r].m);
+                                let in_conf = !w2.reps[r].m.in_conflict().is_empty();
+                                if !o.is_ok() || (!in_conf && !rd.get("ok").is_some_and(|g| crate::props::c04::same_doc(&want, g))) {
+                                    let mut h2 = h.clone();
+                                    h2.push(Op::Upd(r, d));
+                                    cx.violation("C07", "C07:document-cannot-be-submitted-after-exchanged-resolutions", sc, &h2, json!({"update": o.text(), "read": rd, "expected": want}));
+                                    break;
+                                }
                             }
                         }
                     }
